@@ -1,4 +1,20 @@
-(* C16 - placeholder until the theorems are in place. *)
-Require Import RQ.Base.
-Theorem C16_placeholder : True. Proof. exact I. Qed.
-Print Assumptions C16_placeholder.
+(* C16 - Flattening preserves geometry and subpath structure.
+   PARTIAL: structure is proved (with lyon's per-curve points as an oracle input of the model); the deviation bound
+   (8 x tolerance) is checked numerically on every output of the crate, not proved. *)
+Require Import RQ.Base RQ.F32 RQ.Raster RQ.PathF RQ.PathOps RQ.MiscProofs.
+
+Theorem C16_only_lines_partial : forall ops oracle cur start, forallb flat_op (flatten_ops ops oracle cur start) = true.
+Proof. exact flatten_only_lines. Qed.
+Print Assumptions C16_only_lines_partial.
+Theorem C16_flat_path_unchanged_partial : forall ops oracle cur start, forallb flat_op ops = true -> flatten_ops ops oracle cur start = ops.
+Proof. exact flatten_flat_identity. Qed.
+Print Assumptions C16_flat_path_unchanged_partial.
+Theorem C16_winding_preserved_partial : forall p oracle, p_winding (flatten p oracle) = p_winding p.
+Proof. exact flatten_preserves_winding. Qed.
+(* after Close the current point is the subpath's start: a curve following Close starts there *)
+Theorem C16_curve_after_close_partial : forall s p c q rest,
+  curve_starts (MoveTo s :: LineTo p :: Close :: QuadTo c q :: rest) None None = s :: curve_starts rest (Some q) (Some s).
+Proof. exact flatten_after_close_starts_at_subpath_start. Qed.
+(* a curve as first op starts at its control point, which is emitted so that the polygon is the one filling sees *)
+Example C16_curve_first_op : forall c q l, flatten_ops [QuadTo c q] [[l; q]] None None = [LineTo c; LineTo l; LineTo q].
+Proof. reflexivity. Qed.
